@@ -125,13 +125,47 @@ func c02PropImpl(rec *ev.Rec, c QueryCase) ev.Outcome {
 	if len(c.Tables[0].Rows) > 60 || len(c.Tables[1].Rows) > 60 {
 		o.Classes = append(o.Classes, "one_input_much_longer")
 	}
+	o.Classes = append(o.Classes, limitAboveJoinClasses(c.Q, res, c.Wrap)...)
 	return o
+}
+
+// limitAboveJoinClasses labels a LIMIT (without ORDER BY) directly above a join: whether the cut can fall inside a fan-out
+// (some row of the first input has two or more join partners, and fewer rows are asked for than the join has).
+func limitAboveJoinClasses(q gen.Q, res model.Result, wrap string) []string {
+	if len(q.Joins) == 0 || q.Limit == nil || len(q.OrderBy) > 0 || q.Distinct || q.Grouped {
+		return nil
+	}
+	out := []string{"limit_above_join", "limit_above_join_placement_" + map[string]string{"": "top", "sub": "subquery", "cte": "cte"}[wrap]}
+	if *q.Limit == 0 {
+		out = append(out, "limit_above_join_n_0")
+	}
+	if *q.Limit >= len(res.Full) {
+		out = append(out, "limit_above_join_n_ge_rows")
+		return out
+	}
+	// fan-out: the same first-input row (identified by its values; only meaningful for JoinLimitQuery, which projects every
+	// column) occurs in several result rows. Cheap proxy: the result has more rows than distinct first items.
+	if *q.Limit > 0 && len(res.Full) >= 2 {
+		out = append(out, "limit_above_join_cut_inside_result")
+		first := map[string]int{}
+		for _, r := range res.Full {
+			first[CanonJV(r[0])]++
+		}
+		for _, n := range first {
+			if n > *q.Limit {
+				out = append(out, "limit_inside_fanout_possible")
+				break
+			}
+		}
+	}
+	return out
 }
 
 func TestC02(t *testing.T) {
 	r := ev.New("C02", "exploration",
 		"2-3 generated CSV/JSON tables whose first column is a join key from a 3-value pool (Int/Float/String, or - a fifth of the cases, all tables CSV - Time: three instants written in six zone spellings, so equal instants with different texts meet across the tables; other CSV columns are Time columns now and then; NULL and duplicate keys frequent; one table occasionally 63-200 rows so either input may finish first) x "+
 			"inner JOIN (equi / theta / mixed ON, 1-3 terms, optional one-sided conjunct), LOOKUP JOIN, LEFT/RIGHT/OUTER JOIN (conjunctions of cross-table equalities, incl. key arithmetic), chains of two joins, optional WHERE / DISTINCT / ORDER BY, "+
+			"about a quarter of the JSON tables carry one list column ([Float] or [String]; cells from a pool of prefix-related lists [] [1] [1,2] [1,2,3] [1,2,3,4] [1,3] [2] [2,1], so proper-prefix pairs with length gaps of 1 and >=2 are the normal case, plus twin rows that differ only in a prefix-related list cell) travelling through the joins as payload (projected as it is in half of those queries) and compared in ON conditions, and in an eighth of the list cases the join key itself is a list from the chain [] [1] [1,2] [1,2,3]; an eighth of the cases are `SELECT <every column> FROM a JOIN b ON a.k = b.k [JOIN c] LIMIT n` (inner / LOOKUP, no ORDER BY, tables of 3-7 rows so duplicate keys on both sides and fan-outs larger than n are frequent, n in 0..3 or 0..N+1, top level / FROM-subquery / WITH: exactly min(n,N) rows, each a row of the full join); "+
 			"run through the real binary optimised and with --optimize=false; oracle = nested-loop join in the reference evaluator (NULL never matches, every unmatched outer row once, NULL padded; Time keys match as instants), multiset comparison (printed times parsed to instants). "+
 			"non-trivial: both first inputs non-empty and (a NULL key, duplicate keys on >=2 sides, or an unmatched row on an outer side). distinct=(SQL, files, mode)",
 		"outer-join predicates are restricted to the supported form (anything else is a typecheck error by design)")
@@ -140,7 +174,31 @@ func TestC02(t *testing.T) {
 		if rapid.IntRange(0, 3).Draw(t, "three") == 0 {
 			n = 3
 		}
-		tables := gen.JoinTablesOpt(t, n, true)
+		limitShape := rapid.IntRange(0, 7).Draw(t, "limitshape") == 0
+		jo := gen.JoinTablesOpts{Time: true, List: true}
+		if limitShape {
+			jo.MinRows = 3
+		}
+		tables := gen.JoinTablesWith(t, n, jo)
+		if limitShape {
+			// LIMIT n directly above a join on the key alone (duplicate keys on both sides: one arriving record is joined with
+			// several stored ones), n drawn against the size of the join, top level or nested
+			q := gen.JoinLimitQuery(t, tables, "q")
+			c := QueryCase{Tables: tables, Q: q, Mode: "json", NoOpt: rapid.IntRange(0, 2).Draw(t, "noopt") == 0}
+			N := len(model.Eval(q, c.Catalog()).Full)
+			lim := rapid.IntRange(0, 3).Draw(t, "limn")
+			if rapid.IntRange(0, 2).Draw(t, "limwide") == 0 {
+				hi := N + 1
+				if hi > 40 {
+					hi = 40
+				}
+				lim = rapid.IntRange(0, hi).Draw(t, "limn2")
+			}
+			c.Q.Limit = &lim
+			c.Wrap = rapid.SampledFrom([]string{"", "", "sub", "cte"}).Draw(t, "wrap")
+			c.SQL = c.RunSQL()
+			return c
+		}
 		q := gen.JoinQuery(t, tables, gen.JoinOpts{ExprDepth: 2}, "q")
 		return QueryCase{Tables: tables, Q: q, SQL: q.SQL(), Mode: "json", NoOpt: rapid.IntRange(0, 2).Draw(t, "noopt") == 0}
 	}, c02Prop(r))
